@@ -120,16 +120,30 @@ theorem prop_getMeta (c : Bytes) : Propagates (getMeta c) := by
 
 variable (likeFn : LikeFn) (fnFam : FnFam)
 
-attribute [local irreducible] getMeta loopPrefix iterateRange iterateAll in
+theorem prop_fullScan (coll : Bytes) (onDoc : Pipe → Doc → Pipe × Flow) : Propagates (fullScan coll onDoc) := by
+  unfold fullScan
+  refine prop_bind _ _ prop_snapshot (fun kv => ?_)
+  apply prop_loopPrefix
+  intro a e
+  split
+  · exact prop_pure _
+  · exact prop_fail _
+
+theorem prop_onIdOf (coll : Bytes) (onDoc : Pipe → Doc → Pipe × Flow) (st : Pipe) (id : Bytes) :
+    Propagates (onIdOf coll onDoc st id) := by
+  unfold onIdOf
+  refine prop_bind _ _ (prop_get _) (fun v => ?_)
+  split <;> exact prop_pure _
+
+attribute [local irreducible] getMeta fullScan iterateRange iterateAll onIdOf in
 theorem prop_iterateDocs (q : Query) (k : Option Nat) : Propagates (iterateDocs likeFn fnFam q k) := by
   unfold iterateDocs
   prop_auto
   all_goals first
     | exact prop_getMeta _
-    | (apply prop_loopPrefix; intro a e; prop_auto)
-    | (apply prop_iterateRange; intro a id; prop_auto)
-    | (apply prop_iterateAll; intro a id; prop_auto)
-
+    | exact prop_fullScan _ _
+    | (apply prop_iterateRange; intro a id; exact prop_onIdOf _ _ _ _)
+    | (apply prop_iterateAll; intro a id; exact prop_onIdOf _ _ _ _)
 
 theorem prop_saveMeta (c : Bytes) (m : CMeta) : Propagates (saveMeta c m) := prop_set _ _
 
